@@ -141,8 +141,12 @@ def run_history(binary, spec, workdir):
     def fail(why, **kw):
         fails.append((why, dict(base, why=why, **kw)))
 
+    # a Euclidean-mode server is given a port on which NOTHING listens: if the mode switch were ignored, every lookup would
+    # fail (and the requirement below that some Euclidean request succeeds would not be met)
+    router_port = l3.free_port() if spec["euclid"] else stub.port
+
     def serve(order, name):
-        srv = l3.Server(binary, cache, stub.port, threads=1, cache_all=spec["cache_all"], extra_args=extra)
+        srv = l3.Server(binary, cache, router_port, threads=1, cache_all=spec["cache_all"], extra_args=extra)
         try:
             out = []
             for i in order:
